@@ -251,7 +251,7 @@ Fixpoint run_ops (h : heap) (A : alloc) (shared : bool) (s : hval) (ops : list h
           | Some (h2, A2, u) => run_ops h2 (if shared then A2 else A) shared u r
           | None => None end
       | OpSweep =>
-          match delete_empty fuel h s with
+          match delete_empty fuel h A s with
           | Some (h2, u) => run_ops h2 A shared u r
           | None => None end
       | OpDelpaths ps =>
@@ -312,7 +312,7 @@ Definition run_heap (spec : bool) (e : sexp) : sexp :=
                | Some j => match run_ops_v j ops (abs fuel h) with Some r => Some (Some r) | None => None end
                | None => None end, pre0)
             else
-              match run_ops as_is h (Some []) shared s ops with
+              match run_ops current h (Some []) shared s ops with
               | Some (h', u) => (Some (abs fuel h' u), map (abs_obj h') (seq 0 n0))
               | None => (None, [])
               end in
